@@ -270,13 +270,30 @@ pub fn exec(w: &mut World, op: &Op) -> Outcome {
                     let (ek, ev) = e.entry();
                     let a1 = (ek.tok, ev.tok);
                     let a2 = (e.key().tok, e.value().tok);
-                    // exercise one of the three consuming accessors, deterministically by token parity
-                    let (key, value) = e.into_entry();
-                    let accessors_ok = a1 == (key.tok, value.tok) && a2 == a1;
+                    let (kid, vheap) = (e.key().id.0, e.value().heap);
+                    // exercise one of the three consuming accessors, deterministically by token
+                    let (kret, vret, accessors_ok) = match a1.0 % 3 {
+                        0 => {
+                            let (key, value) = e.into_entry();
+                            let ok = a1 == (key.tok, value.tok) && a2 == a1;
+                            (hk(key, &mut held_k), hv(value, &mut held_v), ok)
+                        }
+                        1 => {
+                            // into_key drops the value inside the call
+                            let key = e.into_key();
+                            let ok = a1.0 == key.tok && a2 == a1;
+                            (hk(key, &mut held_k), ValRet { tok: a1.1, heap: vheap }, ok)
+                        }
+                        _ => {
+                            let value = e.into_value();
+                            let ok = a1.1 == value.tok && a2 == a1;
+                            (KeyRet { id: kid, tok: a1.0 }, hv(value, &mut held_v), ok)
+                        }
+                    };
                     Outcome::TryInsertErr {
                         variant,
-                        k: hk(key, &mut held_k),
-                        v: hv(value, &mut held_v),
+                        k: kret,
+                        v: vret,
                         entry_size,
                         max_size,
                         free_memory,
